@@ -13,6 +13,7 @@ import (
 	"net/http"
 	"strings"
 	"sync"
+	"syscall"
 	"sync/atomic"
 	"time"
 
@@ -251,6 +252,37 @@ func (s *Server) peer(a *action, sni, host string) {
 }
 
 // ---------------------------------------------------------------- UDP
+
+// ListenUDPRefuseTCP listens on a loopback UDP port whose TCP twin refuses connections for as long
+// as the server lives: a TCP socket is bound to the same port number and never listens, so nobody
+// else (another fake upstream, the proxy under test) can be handed that port meanwhile.
+func (s *Server) ListenUDPRefuseTCP() error {
+	var lastErr error
+	for try := 0; try < 50; try++ {
+		fd, err := syscall.Socket(syscall.AF_INET, syscall.SOCK_STREAM|syscall.SOCK_CLOEXEC, 0)
+		if err != nil {
+			return err
+		}
+		if err := syscall.Bind(fd, &syscall.SockaddrInet4{Addr: [4]byte{127, 0, 0, 1}}); err != nil {
+			syscall.Close(fd)
+			return err
+		}
+		sa, err := syscall.Getsockname(fd)
+		if err != nil {
+			syscall.Close(fd)
+			return err
+		}
+		port := sa.(*syscall.SockaddrInet4).Port
+		if err := s.ListenUDP(fmt.Sprintf("127.0.0.1:%d", port)); err != nil {
+			syscall.Close(fd)
+			lastErr = err
+			continue
+		}
+		s.addCloser(func() { syscall.Close(fd) })
+		return nil
+	}
+	return lastErr
+}
 
 func (s *Server) ListenUDP(addr string) error {
 	pc, err := net.ListenPacket("udp", addr)
